@@ -59,13 +59,13 @@ Record sbond := mkSB { sb_n : Z; sb_m : Z; sb_q : qbond; sb_stereo : option bool
 (* b == 2 if isinstance(b, int) else 2 in (b if isinstance(b, list) else b.order) *)
 Definition can_double (b : payload) : bool :=
   match b with PInt o => o =? 2 | PZs l => zmem 2 l | PQB l _ => zmem 2 l | _ => false end.
-(* code after fix f821fac:
-   if n in stereo_bonds and m in stereo_bonds and stereo_bonds[n] and stereo_bonds[m] and <possible double bond>:
+(* code after the fixes f821fac and its follow-up:
+   if n != m and n in stereo_bonds and m in stereo_bonds and stereo_bonds[n] and stereo_bonds[m] and <possible double bond>:
        if m not in stereo_bonds[n]: popitem from both, stereo = s1 == s2 *)
 Definition stereo_of (sb : Parser.sdict) (n m : Z) (b : payload) : pyres (option bool * Parser.sdict) :=
   match zget sb n, zget sb m with
   | Some dn, Some dm0 =>
-      if negb (nonempty dn && nonempty dm0 && can_double b) then Ok (None, sb)
+      if negb (negb (n =? m) && nonempty dn && nonempty dm0 && can_double b) then Ok (None, sb)
       else if zmem m (keys dn) then Ok (None, sb)
       else match popitem dn with
            | None => Err KeyError
@@ -74,7 +74,7 @@ Definition stereo_of (sb : Parser.sdict) (n m : Z) (b : payload) : pyres (option
                match zget sb1 m with
                | None => Err KeyError
                | Some dm => match popitem dm with
-                            | None => Err KeyError                  (* n = m: the one mark was popped already *)
+                            | None => Err KeyError
                             | Some (dm', s2) => Ok (Some (Bool.eqb s1 s2), Parser.zset sb1 m dm')
                             end
                end
@@ -205,6 +205,34 @@ Definition smarts_cx (smr : string) (cx : option string) : pyres (list (qatom * 
       end
   end.
 
+(* ---- QueryContainer.add_atom(atom) normalisation: an Element -> QueryElement.from_atom(atom) (element, isotope, charge, radical
+   only), a str -> QueryElement.from_symbol(atom)(), an int -> QueryElement.from_atomic_number(atom)(); a Query object is
+   stored as it is *)
+Inductive addarg := AElem (a : latom) | ASym (s : str) | ANum (n : Z).
+Definition default_qx : qx := mkQX 0 false [] [] [] [] [] false.
+Definition add_atom_norm (x : addarg) : pyres qatom :=
+  match x with
+  | AElem a => Ok (from_atom a false false false false false)
+  | ASym s => if str_eqb s ["A"%char] then Ok (QAny default_qx)
+              else if str_eqb s ["M"%char] then Ok (QMetal [] [])
+              else match sym_number s with Some n => Ok (QElem n None default_qx) | None => Err ValueError end
+  | ANum n => if valid_number n then Ok (QElem n None default_qx) else Err ValueError
+  end.
+
+(* ---- Query.copy(full): a query atom with its stereo mark and masked flag; both are kept only by a full copy *)
+Definition qfull := (qatom * option bool * bool)%type.
+Definition qcopy (full : bool) (x : qfull) : qfull :=
+  let '(q, st, mk) := x in (q, (if full then match q with QMetal _ _ => None | _ => st end else None), (if full then mk else false)).
+(* the atom smarts() builds from a bracket body, with its marks *)
+Definition smarts_qfull (body : str) : pyres qfull :=
+  match query_parse body with
+  | Err e => Err e
+  | Ok p => match build_atom p with
+            | Err e => Err e
+            | Ok q => Ok (q, (match q with QMetal _ _ => None | _ => p_stereo p end), p_masked p)
+            end
+  end.
+
 (* ---- text form: atoms in order, bonds sorted by their (smaller, larger) atom positions *)
 Definition bkey (x : sbond) : Z := Z.min (sb_n x) (sb_m x) * 100000 + Z.max (sb_n x) (sb_m x).
 Fixpoint insert_b (x : sbond) (l : list sbond) : list sbond :=
@@ -217,3 +245,8 @@ Definition show_full (r : list (qatom * option bool) * list sbond) : string :=
                                    show_qbond (sb_q x) ++ "/" ++ show_opt show_bool (sb_stereo x)) (sort_b (snd r))).
 Definition b_full (inputs : list string) := batch (fun s => show_res show_full (smarts_full s)) inputs.
 Definition b_cx (inputs : list (string * option string)) := batch (fun x => show_res show_full (smarts_cx (fst x) (snd x))) inputs.
+Definition show_qfull (x : qfull) : string := let '(q, st, mk) := x in show_qatom q ++ "/" ++ show_opt show_bool st ++ "/" ++ show_bool mk.
+Definition b_add (inputs : list addarg) := batch (fun x => show_res show_qatom (add_atom_norm x)) inputs.
+Definition b_copy (inputs : list string) :=
+  batch (fun s => show_res (fun x => show_qfull x ++ " " ++ show_qfull (qcopy false x) ++ " " ++ show_qfull (qcopy true x) ++ " " ++
+                                    show_qfull (qcopy false (qcopy true x))) (smarts_qfull (s2l s))) inputs.
